@@ -2014,7 +2014,9 @@ fn nthreads() -> usize {
 }
 
 fn run_pool(cat: &Cat, tier: Tier, part: &str) -> Report {
-	let dir = std::path::Path::new(&crate::uni::scratch_base()).join(format!("gv-c11-{}-{}", std::process::id(), part));
+	// (several parts of one run use the class "explicit": each call gets a directory of its own)
+	static POOL_SEQ: std::sync::atomic::AtomicUsize = std::sync::atomic::AtomicUsize::new(0);
+	let dir = std::path::Path::new(&crate::uni::scratch_base()).join(format!("gv-c11-{}-{}-{}", std::process::id(), part, POOL_SEQ.fetch_add(1, std::sync::atomic::Ordering::SeqCst)));
 	let _ = std::fs::remove_dir_all(&dir);
 	std::fs::create_dir_all(&dir).expect("pool dir");
 	std::fs::write(dir.join("cat.json"), serde_json::to_vec(cat).unwrap()).expect("write catalogue");
